@@ -711,7 +711,8 @@ impl<'c, E: TElemT> TInterp<'c, E> {
         match kind {
             0 => {
                 let cont = if cont == 5 { 0 } else { cont };
-                let (got, c) = drive_iter(self.table.iter(), total, prefix, cont, Some(&|i: &hb::hash_table::Iter<'_, E>| i.clone()), "table iter", |e| {
+                let it = if frac & 1 == 1 { (&self.table).into_iter() } else { self.table.iter() };
+                let (got, c) = drive_iter(it, total, prefix, cont, Some(&|i: &hb::hash_table::Iter<'_, E>| i.clone()), "table iter", |e| {
                     e.check("iter element");
                     (e.uid(), e.payload())
                 })?;
@@ -725,7 +726,8 @@ impl<'c, E: TElemT> TInterp<'c, E> {
                 let cont = if cont == 5 { 0 } else { cont };
                 let mutate = cont != 4;
                 let mut touched = Vec::new();
-                let (got, c) = drive_iter(self.table.iter_mut(), total, prefix, cont, None, "table iter_mut", |e| {
+                let it = if frac & 1 == 1 { (&mut self.table).into_iter() } else { self.table.iter_mut() };
+                let (got, c) = drive_iter(it, total, prefix, cont, None, "table iter_mut", |e| {
                     e.check("iter_mut element");
                     let old = e.payload();
                     if mutate {
